@@ -17,6 +17,7 @@ LENGTHS = {
     'C09': {'quick': [7, 14], 'thorough': [7, 8, 14, 15, 32]},
     'C10': {'quick': [14], 'thorough': [14, 15, 32]},
     'C07': {'quick': [14], 'thorough': [14, 15, 32]},
+    'C01': {'quick': [0, 1, 2, 3, 4, 5, 6, 7, 8, 11, 13, 14, 15], 'thorough': list(range(0, 33))},
 }
 
 DF_FILTER = {
@@ -103,6 +104,8 @@ def main(prop, tier):
             j = {'L': L, 'spec': s, 'props': [prop]}
             if prop == 'C02':
                 j['base_len'] = base_len_for(s, L)
+            if prop == 'C01' and L in (7, 14):
+                j['ops'] = True
             jobs.append(j)
     # longest jobs first
     jobs.sort(key=lambda j: -(j['L'] * 10 + (5 if any('Extract' in e for e in j['spec']) else 0)))
